@@ -1,26 +1,40 @@
 ------------------------------- MODULE MC_C04 -------------------------------
 (***************************************************************************)
 (* C04 -- lexical scoping; closures capture their defining scope by        *)
-(* reference.  All well-formed token sequences up to a bound over          *)
+(* reference.  Programs are token sequences over                           *)
 (*   D  x := k      A  x = k      R  print(x)     Dy y := k   Ry print(y)  *)
-(*   {  open block  F{ open `fn f() {`           L{ open `for _ in [1,2] {`*)
-(*   }  close       C  f()()      C1 f()          S  guarded recursion     *)
-(* where every `fn f` body ends by returning a closure that updates and    *)
-(* prints x -- so `f()()` runs a closure after its defining scope ended.   *)
+(*   {  open block  I{ open `if true {`  L{ open `for _ in [1,2] {`        *)
+(*   W{ open a two-iteration `while`     F{ open `fn f() {`      } close   *)
+(*   C  f()()       C1 f()        S  guarded recursion                     *)
+(*   Q  push a closure over the *current* scope onto the global list fs    *)
+(* Every `fn f` body ends by returning a closure that updates and prints   *)
+(* x (so `f()()` runs a closure after its defining scope ended), and every *)
+(* program ends by calling all closures in fs (closures created in a       *)
+(* block / iteration / call that has ended: they must still see their own  *)
+(* bindings -- fresh per iteration and per call).                          *)
+(*   toks    every well-formed sequence up to TokLen over the alphabet     *)
+(*   vanish  a declaration inside every kind of construct, first thing in  *)
+(*           every kind of context, read after the construct ended         *)
+(*   fresh   closures created per iteration / per call, called at the end  *)
+(*   random  seeded longer sequences supplied by the harness               *)
 (***************************************************************************)
-EXTENDS SeedMC
+EXTENDS SeedMC, IOUtils
 
-CONSTANTS TokLen
+CONSTANTS TokLen, Alphabet
 
 NX == <<120>>
 NY == <<121>>
 NF == <<102>>
 ND == <<100>>
+FS == <<102, 115>>
 x == EVar(NX)
 y == EVar(NY)
-Toks == {"D", "A", "R", "Dy", "Ry", "{", "F{", "L{", "}", "C", "C1", "S"}
-Openers == {"{", "F{", "L{"}
+AllToks == {"D", "A", "R", "Dy", "Ry", "{", "I{", "F{", "L{", "W{", "}", "C", "C1", "S", "Q"}
+SmallToks == {"D", "A", "R", "{", "F{", "L{", "W{", "}", "C", "Q"}
+Openers == {"{", "I{", "F{", "L{", "W{"}
+WN(i) == <<119, 48 + (i % 10), 48 + (i \div 10)>>
 
+ClosureBody == <<SOpAssign(x, "+", EInt(100)), SPrint(x)>>
 Simple(t, i) ==
     CASE t = "D"  -> SDecl(x, EInt(i))
       [] t = "A"  -> SAssign(x, EInt(10 + i))
@@ -31,13 +45,15 @@ Simple(t, i) ==
       [] t = "C1" -> SExpr(ECall(EVar(NF), <<>>))
       [] t = "S"  -> SIf(EBin(">", EVar(ND), EInt(0)),
                          <<SOpAssign(EVar(ND), "-", EInt(1)), SExpr(ECall(EVar(NF), <<>>))>>)
+      [] t = "Q"  -> SOpAssign(EVar(FS), "+", EList(<<EFunc(<<>>, FALSE, ClosureBody)>>))
 
-Closure == SReturn(EFunc(<<>>, FALSE, <<SOpAssign(x, "+", EInt(100)), SPrint(x)>>))
-
-Compound(t, body) ==
-    CASE t = "{"  -> SBlock(body)
-      [] t = "F{" -> SFn(NF, <<>>, FALSE, body \o <<Closure>>)
-      [] t = "L{" -> SFor(EVar(N_us), EList(<<EInt(1), EInt(2)>>), body)
+Compound(t, i, body) ==        \* a sequence of statements
+    CASE t = "{"  -> <<SBlock(body)>>
+      [] t = "I{" -> <<SIf(EBool(TRUE), body)>>
+      [] t = "F{" -> <<SFn(NF, <<>>, FALSE, body \o <<SReturn(EFunc(<<>>, FALSE, ClosureBody))>>)>>
+      [] t = "L{" -> <<SFor(EVar(N_us), EList(<<EInt(1), EInt(2)>>), body)>>
+      [] t = "W{" -> <<SDecl(EVar(WN(i)), EInt(0)),
+                       SWhile(EBin("<", EVar(WN(i)), EInt(2)), <<SOpAssign(EVar(WN(i)), "+", EInt(1))>> \o body)>>
 
 \* recursive descent over the token sequence; ok = balanced and no empty block
 RECURSIVE ParseFrom(_, _, _)
@@ -48,22 +64,49 @@ ParseFrom(toks, i, depth) ==
          ELSE IF t \in Openers THEN
              LET inner == ParseFrom(toks, i + 1, depth + 1)
                  rest == ParseFrom(toks, inner.i, depth) IN
-             [ss |-> <<Compound(t, inner.ss)>> \o rest.ss, i |-> rest.i,
+             [ss |-> Compound(t, i, inner.ss) \o rest.ss, i |-> rest.i,
               ok |-> inner.ok /\ rest.ok /\ inner.ss # <<>> /\ inner.i <= Len(toks) + 1
                      /\ toks[inner.i - 1] = "}"]
          ELSE LET rest == ParseFrom(toks, i + 1, depth) IN
               [ss |-> <<Simple(t, i)>> \o rest.ss, i |-> rest.i, ok |-> rest.ok]
 
-RECURSIVE TokSeqs(_)
-TokSeqs(n) == IF n = 0 THEN {<<>>} ELSE {<<t>> \o s : t \in Toks, s \in TokSeqs(n - 1)}
+RECURSIVE TokSeqs(_, _)
+TokSeqs(n, alpha) == IF n = 0 THEN {<<>>} ELSE {<<t>> \o s : t \in alpha, s \in TokSeqs(n - 1, alpha)}
 
 Balanced(s) ==
     /\ Cardinality({i \in 1 .. Len(s) : s[i] \in Openers}) = Cardinality({i \in 1 .. Len(s) : s[i] = "}"})
     /\ s[Len(s)] \notin Openers /\ s[1] # "}"
 WellFormed(s) == Balanced(s) /\ ParseFrom(s, 1, 0).ok /\ ParseFrom(s, 1, 0).i = Len(s) + 1
 
-\* parameter tuples <<"toks", token sequence>>
-C04Params == { <<"toks", s>> : s \in {q \in UNION {TokSeqs(n) : n \in 1 .. TokLen} : WellFormed(q)} }
+\* targeted families
+Close(ctx) == IF ctx = <<>> THEN <<>> ELSE <<"}">>
+AfterCtx(ctx) == IF ctx = <<"F{">> THEN <<"C", "C1">> ELSE <<>>
+Contexts == {<<>>, <<"F{">>, <<"L{">>, <<"W{">>, <<"{">>, <<"I{">>}
+Vanish ==
+    { pre \o ctx \o mid \o <<inner, dd, "}">> \o <<"R">> \o Close(ctx) \o AfterCtx(ctx) \o <<"R">> :
+        pre \in {<<>>, <<"D">>}, ctx \in Contexts, mid \in {<<>>, <<"Dy">>}, inner \in Openers \ {"F{"}, dd \in {"D", "A"} }
+Fresh ==
+    { <<lp, "D", "Q", "}">> : lp \in {"L{", "W{"} }
+    \cup { <<"D", lp, "A", "Q", "}">> : lp \in {"L{", "W{"} }
+    \cup { <<lp, "D", "{", "Q", "}", "Q", "}">> : lp \in {"L{", "W{"} }
+    \cup { <<lp, lp2, "D", "Q", "}", "}">> : lp \in {"L{", "W{"}, lp2 \in {"L{", "W{", "{", "I{"} }
+    \cup { <<"F{", "D", "Q", "}", "C1", "C1">>, <<"F{", "D", "Q", "}", "C", "C">>,
+           <<"D", "F{", "Q", "A", "}", "C1", "R">>, <<"F{", "D", "L{", "Q", "}", "}", "C1">>,
+           <<"F{", "L{", "D", "Q", "}", "}", "C1", "C1">>, <<"L{", "F{", "D", "Q", "}", "C1", "}">>,
+           <<"D", "L{", "F{", "A", "Q", "}", "C", "}", "R">> }
 
-C04ProgOf(p) == <<SDecl(EVar(ND), EInt(1))>> \o ParseFrom(p[2], 1, 0).ss \o <<SPrint(EInt(0))>>
+RandomSeqs == IF "SEED_C04_RANDOM" \in DOMAIN IOEnv THEN ndJsonDeserialize(IOEnv.SEED_C04_RANDOM) ELSE <<>>
+
+\* parameter tuples <<family, token sequence>>
+C04Params ==
+    { <<"toks", s>> : s \in {q \in UNION {TokSeqs(n, AllToks) : n \in 1 .. 3} : WellFormed(q)} }
+    \cup { <<"toks", s>> : s \in {q \in UNION {TokSeqs(n, Alphabet) : n \in 4 .. TokLen} : WellFormed(q)} }
+    \cup { <<"vanish", s>> : s \in Vanish }
+    \cup { <<"fresh", s>> : s \in Fresh }
+    \cup { <<"random", RandomSeqs[i].s>> : i \in {j \in 1 .. Len(RandomSeqs) : WellFormed(RandomSeqs[j].s)} }
+
+C04ProgOf(p) ==
+    <<SDecl(EVar(ND), EInt(1)), SDecl(EVar(FS), EList(<<>>))>>
+    \o ParseFrom(p[2], 1, 0).ss
+    \o <<SFor(EPat(<<EVar(N_us), EVar(<<103>>)>>), EVar(FS), <<SExpr(ECall(EVar(<<103>>), <<>>))>>), SPrint(EInt(0))>>
 =============================================================================
